@@ -10,7 +10,8 @@ plainly alone.  Model: Model/Cases.v (handling setup, merge) + Model/Suite.v (re
 property on the observations: Spec/C17.v `check_suite_case`.
 
 Experiment 2 (histories; real program, real instructions): families of cases that change settings (env [-of act|!act]
-[unset], timeout, cd, def, file in act/ and tmp/) and of cases that observe (shell probes printing environment, current
+[unset], timeout, cd, def, file in act/ and tmp/; 35%: the case ENDS with its current directory removed, in [before-assert]
+or at the end of [cleanup]) and of cases that observe (shell probes printing environment, current
 directory, listings of act/ and tmp/ at the start of [setup], in the act program and in [cleanup]; references to / definitions
 of the symbols), run in every order as a suite and as consecutive standalone runs of ONE MainProgram object; half of the
 families with [setup] contents supplied by the suite, most of these also with suite-supplied [before-assert] / [assert] /
@@ -854,6 +855,11 @@ REAL_OPS = {
     'cd': lambda a: [('cd', a)],
     'file': lambda a, n: [('file', a, n)],
     'sleep': lambda secs: [],
+    # the case ENDS with its current directory removed: it makes a scratch directory, goes there and removes it -
+    # as the last instructions of [cleanup] (after its last probe: nothing of it is observed) ...
+    'rmcwd_end': lambda area: [],
+    # ... or in [before-assert]: its later probes run in a directory that is gone ('other 77' stands for it)
+    'rmcwd_ba': lambda: [('cd', ('other', 77))],
 }
 
 
@@ -933,11 +939,16 @@ def real_case_text(sc, log, own_p0=True):
     out += usage_texts(sc['usages'])
     wval = [u[2] for u in sc['usages'] if u[0] == 'def' and u[1] == W]
     sleeps = [op for op in sc['ops'] if op[0] == 'sleep']
-    out += [real_op_text(op) for op in sc['ops'] if op[0] not in ('sleep', 'timeout_last')]
+    out += [real_op_text(op) for op in sc['ops'] if op[0] not in ('sleep', 'timeout_last', 'rmcwd_end', 'rmcwd_ba')]
     out += ['[act]', probe('A', log, False) + ('; echo %d' % wval[0] if wval else '')]
+    if any(op[0] == 'rmcwd_ba' for op in sc['ops']):
+        out += ['[before-assert]', 'dir scratch', 'cd scratch', '$ rmdir "$(pwd)"']
     if sleeps:
         out += ['[assert]'] + ['$ sleep %s' % op[1] for op in sleeps]
     out += ['[cleanup]', probe('P1', log, True, syms=[W] if wval else [])]
+    for op in sc['ops']:
+        if op[0] == 'rmcwd_end':
+            out += ['dir -rel-%s scratch' % op[1], 'cd -rel-%s scratch' % op[1], '$ rmdir "$(pwd)"']
     out += ['timeout = %d' % op[1] for op in sc['ops'] if op[0] == 'timeout_last']
     return '\n'.join(out) + '\n'
 
@@ -1006,6 +1017,14 @@ def gen_real_family(rng, quick, timeout_family=False):
                 if rng.chance(0.88):
                     c['usages'].insert(rng.below(len(c['usages']) + 1), ('def', W, i + 1))
         fam['suite'] = sc
+    for c in scripts[:n_act]:
+        if rng.chance(0.35):
+            # (not in [before-assert] under a suite whose own before-assert probe would come before it)
+            if fam.get('suite', {}).get('observes') or rng.chance(0.5):
+                c['ops'].append(('rmcwd_end', rng.choice(['tmp', 'act'])))
+            else:
+                c['ops'].append(('rmcwd_ba',))
+    fam['abs_suite'] = rng.chance(0.5)  # `exactly suite` is given the suite by its absolute path
     return fam
 
 
@@ -1034,7 +1053,7 @@ def parse_probes(text, sbx_roots):
                 v.setdefault('sym_vals', []).append((int(k[1:]), int(val) if val.isdigit() else 9999))
             elif k == 'cwd':
                 real = os.path.realpath(val)
-                cls = 99
+                cls = 77 if val == '' else 99  # pwd prints nothing in a directory that has been removed
                 if any(os.path.dirname(os.path.dirname(real)) == os.path.realpath(r) for r in sbx_roots) and \
                         os.path.basename(real) in ('act', 'tmp', 'result', 'internal'):
                     cls = os.path.basename(real)
@@ -1076,7 +1095,10 @@ def exec_main(mp, args, cwd, log):
         if isinstance(ex, KeyboardInterrupt):
             raise
         exc = ex
-    cwd_ok = os.path.realpath(os.getcwd()) == os.path.realpath(cwd)
+    try:
+        cwd_ok = os.path.realpath(os.getcwd()) == os.path.realpath(cwd)
+    except OSError:  # the process was left in a directory that no longer exists
+        cwd_ok = False
     env_ok = dict(os.environ) == env0
     if not env_ok:
         os.environ.clear()
@@ -1139,7 +1161,8 @@ def observe_real_family(fam, d, sbx):
                 f.write(real_suite_text(fam, log, ['c%d.case' % i for i in order]))
             if os.path.exists(log):
                 os.remove(log)
-            out, cwd_ok, env_ok, exc = exec_main(mp, ['suite', 'o%d.suite' % k], d, log)
+            out, cwd_ok, env_ok, exc = exec_main(mp, ['suite', os.path.join(d, 'o%d.suite' % k) if fam.get('abs_suite') else 'o%d.suite' % k],
+                                                 d, log)
             os.chdir(old)
             try:
                 logb = open(log, 'rb').read()
@@ -1628,7 +1651,8 @@ def run(ctx, res, scale=1):
                 'each run as suite, each case with --suite, beside exactly.suite / plainly alone. non-trivial := some suite file has '
                 'contents; distinct := distinct file texts. '
                 'exp2: families of 2-4 real cases (1-2 that change settings with env [-of act|!act] [unset], timeout, cd, def, file in '
-                'act/ and tmp/; 1-2 observers that refer to / define the symbols and print, through the shell, environment, current '
+                'act/ and tmp/ and (35%) end with their current directory removed (dir scratch; cd scratch; rmdir "$(pwd)" in before-assert or '
+                'as the last instructions of cleanup), the suite being given by a relative or an absolute path; 1-2 observers that refer to / define the symbols and print, through the shell, environment, current '
                 'directory and the listing of act/ and tmp/ at the start of [setup], in the act program and in [cleanup]) in every order '
                 '(6 orders sampled when there are more, in quick) + one order with a case run twice; 50%: the suite supplies [setup] '
                 'contents, 80% of these also before-assert / assert / cleanup instructions (file = "@[W]@", shell probes, stdout equals '
